@@ -140,7 +140,7 @@ def apply(trans, shape, act, parity):
         else:
             raise Machinery("unexpected action %s" % op)
         return "ok"
-    except ValueError:
+    except Exception:
         return "err"
 
 
